@@ -15,6 +15,14 @@ CLAIMS = {
          "Tie to the code: every Display row and every reader row compared exhaustively (all table values; every 1-2 character symbol candidate with every ASCII "
          "follow character; every configuration spelling with every one-character corruption; all charge spellings) on every run.",
          "Lean 4 proof (T-tok: reader inverts text for every token class and every bracket-field combination) + exhaustive differential correspondence of the tables", "4.7"),
+ 'C13': ("Theorems in Purr/Props/C13.lean about the ring-number pool, for every sequence of hits (every reachable interleaving of openings and closings): the pool invariant "
+         "(open and returned numbers partition 1..counter-1, no duplicates, one entry per unordered pair) holds in every reachable state; an opening hit returns the least number >= 1 not currently open; "
+         "a closing hit returns the number its pair was opened with and that number is free at once; an opening number never exceeds the count of open closures plus one, hence "
+         "no_early_exhaustion: as long as at most 99 closures are open at the same time every number is in 1..99 and the conversion to Rnum cannot fail, for any total number of rings. "
+         "The traversal takes every ring number from Pool.hit in emission order (model Walk.lean); the lift 'well-formed graph with at most 99 simultaneously open closures => walk does not panic' "
+         "is not yet a theorem (it needs the traversal invariant) and is covered by the S-graph correspondence and the online oracle only — declared partial on that lemma. "
+         "Tie: JoinPool driven directly through the cfg hook and through walk on ring-rich graphs.",
+         "Lean 4 proof (invariant by induction over hit sequences; least-free-number and recycling theorems) + differential correspondence of JoinPool and walk", "4.13"),
  'C16': ("Theorem debracket_sound (Purr/Props/C16.lean): for every atom kind and every bond-order sum (an unbounded Nat), whenever debracket returns, the result has the same "
          "element or wildcard, the same aromatic flag and the same hydrogen count at that sum; kinds with isotope/configuration/charge/map and unbracketed kinds are "
          "returned unchanged; debracket returns whenever the sum plus hydrogen count fits a byte. Tie: symbol x hcount x sum x field-presence compared with the code.",
